@@ -97,6 +97,11 @@ def run_impl(case):
                 sur.train_step = case["train_step"]
             if case["trained0"]:
                 sur.trained = True
+        if case.get("preload") and kind != "eval":
+            # a training set pre-seeded through the public add_data (as read_from_data_store does) before the first
+            # request: retraining is still due at every train_step-th TRUE EVALUATION, whatever the set's size is
+            for px, py in case["preload"]:
+                sur.add_data([float(t) for t in px], [float(t) for t in py])
         if case["default_regressor"]:        # count the wrapper's train() calls around the real regressor
             inner = sur.train
 
@@ -139,6 +144,9 @@ def spec_run(case, train_step):
     trained = bool(case["trained0"])
     ev = pr = 0
     xs, ys, fits, ret = [], [], [], []
+    for px, py in case.get("preload") or []:      # pre-seeded training set (add_data before the first request)
+        xs.append([float(t) for t in px])
+        ys.append([float(t) for t in py])
     for x, h in case["requests"]:
         xf = [float(t) for t in x]
         if trained and case["has_hook"] and h is not None:
@@ -156,7 +164,8 @@ def spec_run(case, train_step):
             if ev % train_step == 0:
                 fits.append((len(xs), len(ys)))
                 trained = True
-    return {"returned": ret, "eval": ev, "pred": pr, "fits": fits, "xs": xs, "ys": ys, "fcalls": list(xs), "trained": trained}
+    return {"returned": ret, "eval": ev, "pred": pr, "fits": fits, "xs": xs, "ys": ys,
+            "fcalls": list(xs[len(case.get("preload") or []):]), "trained": trained}
 
 
 KEYS = [("returned", "surrogate-returned-value", "returned values"),
@@ -203,6 +212,10 @@ def lean_line(case, train_step):
     reqs = ";".join(req_tok(r) for r in case["requests"])
     if case["wrapper"] == "eval":
         return "c19.pass %s|%s" % (mat(case["obj"]), reqs)
+    if case.get("preload"):
+        return "c19.pred2 %d|%d|%d|%s|%s|%s|%s" % (1 if case["has_hook"] else 0, train_step, 1 if case["trained0"] else 0,
+                                                  mat(case["obj"]), reqs, mat([p[0] for p in case["preload"]]),
+                                                  mat([p[1] for p in case["preload"]]))
     return "c19.pred %d|%d|%d|%s|%s" % (1 if case["has_hook"] else 0, train_step, 1 if case["trained0"] else 0,
                                        mat(case["obj"]), reqs)
 
@@ -246,7 +259,11 @@ def gen_case(rng, quick, default_regressor=False):
     case = {"wrapper": wrapper, "n": n, "obj": obj, "requests": requests, "train_step": ts,
             "trained0": rng.random() < 0.35, "has_hook": rng.random() < 0.8, "via_job": rng.random() < 0.4,
             "default_regressor": False}
+    if wrapper != "eval" and rng.random() < 0.25:
+        k = rng.randint(1, 7)
+        case["preload"] = [([rng.randint(-50, 50) for _ in range(n)], [rng.randint(-99, 99) for _ in range(nobj)]) for _ in range(k)]
     if default_regressor:
+        case.pop("preload", None)
         # the constructors' own regressors (GaussianProcessRegressor / KRG): few, distinct points, rare retraining
         case["wrapper"] = rng.choice(["scikit", "smt"])
         case["n"] = n = 1
@@ -347,7 +364,8 @@ def report(ctx, case, bad):
         small = case
     ctx.fail(bad[0][0], "%s wrapper, train_step %r, trained at start %r, hook %s, %d request(s) %r: %s" % (
         small["wrapper"], effective_step(small), small["trained0"], "present" if small["has_hook"] else "absent",
-        len(small["requests"]), small["requests"][:6], bad[0][1]),
+        len(small["requests"]), small["requests"][:6],
+        ("after %d pairs pre-seeded with add_data: " % len(small["preload"]) if small.get("preload") else "") + bad[0][1]),
         {"op": "surrogate", "case": small, "findings": [list(b) for b in bad[:8]]})
 
 
